@@ -249,6 +249,14 @@ impl C01 {
             advance_ledgers(&env, 17280 * days_idle);
             cx.label(if days_idle > 60 { "gateway_idle_for_more_than_60_days" } else { "gateway_idle_for_a_day" });
         }
+        if case.domain / 32 % 2 == 1 {
+            // somebody re-delivers a rotation to a set that is already registered (signed by the latest set): whatever the
+            // gateway answers, no set may age by it
+            let latest = sets.last().unwrap().clone();
+            let again = sets[pick(case.prover, sets.len())].clone();
+            let _ = gw.rotate(&env, &again, &latest, latest.full_mask(), false);
+            cx.label("rotation_to_a_registered_set_attempted_before_the_submission");
+        }
         if case.domain / 8 % 4 == 3 {
             // the owner upgraded the gateway and completed the migration: signer sets, retention and domain are carried over
             upgrade_and_migrate(&env, &gw.id).map_err(|e| format!("setup: {}", e))?;
